@@ -348,6 +348,25 @@ class Interp:
             return bytes_ref(data)
         if ch0 == "'":
             return ord(parse_char_lit(c))
+        if ch0 == '{' and c.startswith('{alloc'):
+            # a reference to a static: evaluated once from the static's own MIR body, shared by every user
+            m = re.match(r'^\{(alloc\d+): ', c)
+            crate = getattr(fr, 'crate', None) if fr is not None else None
+            name = getattr(self.prog, 'alloc_static', {}).get((crate, m.group(1))) if m else None
+            if name is None and m:
+                cands = {v for (cr, a), v in getattr(self.prog, 'alloc_static', {}).items() if a == m.group(1)}
+                name = cands.pop() if len(cands) == 1 else None
+            if name is not None:
+                cache = self.prog.__dict__.setdefault('static_cells', {})
+                key = (crate, name)
+                if key not in cache:
+                    f = self.prog.funcs.get(name) or self.prog.funcs.get('%s::%s' % (crate, name))
+                    if f is None:
+                        f = next((g for g in self.prog.all_funcs() if g.name.split('::')[-1] == name.split('::')[-1] and g.raw_header.startswith('static ')), None)
+                    if f is None:
+                        raise Unsupported('static ' + name)
+                    cache[key] = ValLoc(self.run(f, [], {}))
+                return Ref(cache[key])
         if c == '!missing-capture':
             raise Unsupported('closure captures that rustc\'s MIR printer omits could not be reconstructed')
         if c.startswith('ZeroSized: '):
